@@ -28,15 +28,61 @@ pub fn line_changes_from_diff(
             // Deleted files are ignored.
             continue;
         }
+        // Git prints a path with "unusual" bytes (non-ASCII, quotes, control characters) quoted
+        // and escaped like a C string unless `core.quotePath` is off.
+        let target_file = unquote_git_path(&patched_file.target_file);
         // Git prefixes the target path with a single "b/"; the path itself may start with a
         // directory named "b" as well.
-        let target_file = patched_file
-            .target_file
-            .strip_prefix("b/")
-            .unwrap_or(&patched_file.target_file);
+        let target_file = target_file.strip_prefix("b/").unwrap_or(&target_file);
         result.insert(target_file.into(), line_changes(&patched_file));
     }
     Ok(result)
+}
+
+/// Undoes git's C-style quoting of a path (`"b/caf\303\251.py"` is `b/café.py`). A path that is
+/// not quoted is returned as it is.
+fn unquote_git_path(path: &str) -> String {
+    let Some(inner) = path
+        .strip_prefix('"')
+        .and_then(|rest| rest.strip_suffix('"'))
+    else {
+        return path.to_string();
+    };
+    let mut bytes = Vec::with_capacity(inner.len());
+    let mut iter = inner.bytes().peekable();
+    while let Some(b) = iter.next() {
+        if b != b'\\' {
+            bytes.push(b);
+            continue;
+        }
+        match iter.next() {
+            Some(b'a') => bytes.push(0x07),
+            Some(b'b') => bytes.push(0x08),
+            Some(b'f') => bytes.push(0x0c),
+            Some(b'n') => bytes.push(b'\n'),
+            Some(b'r') => bytes.push(b'\r'),
+            Some(b't') => bytes.push(b'\t'),
+            Some(b'v') => bytes.push(0x0b),
+            Some(d @ b'0'..=b'7') => {
+                // Up to three octal digits.
+                let mut value = u32::from(d - b'0');
+                for _ in 0..2 {
+                    match iter.peek() {
+                        Some(&d @ b'0'..=b'7') => {
+                            value = value * 8 + u32::from(d - b'0');
+                            iter.next();
+                        }
+                        _ => break,
+                    }
+                }
+                bytes.push(value as u8);
+            }
+            // `\\`, `\"` and anything else stand for themselves.
+            Some(other) => bytes.push(other),
+            None => bytes.push(b'\\'),
+        }
+    }
+    String::from_utf8_lossy(&bytes).into_owned()
 }
 
 fn line_changes(patched_file: &PatchedFile) -> Vec<LineChange> {
@@ -289,6 +335,17 @@ mod tests {
     /// Creates a whole line change (either added or deleted line).
     fn line_change(line: usize) -> LineChange {
         LineChange { line, ranges: None }
+    }
+
+    #[test]
+    fn quoted_paths_are_unquoted() -> anyhow::Result<()> {
+        let line_changes = line_changes_from_diff(
+            "diff --git \"a/caf\\303\\251 \\\"x\\\".py\" \"b/caf\\303\\251 \\\"x\\\".py\"\nindex f384549..58a279e 100644\n--- \"a/caf\\303\\251 \\\"x\\\".py\"\n+++ \"b/caf\\303\\251 \\\"x\\\".py\"\n@@ -1 +1 @@\n-one\n+two\n",
+        )?;
+        assert!(line_changes.contains_key(&PathBuf::from("café \"x\".py")));
+        assert_eq!(unquote_git_path("b/plain.py"), "b/plain.py");
+        assert_eq!(unquote_git_path("\"b/tab\\there\""), "b/tab\there");
+        Ok(())
     }
 
     #[test]
